@@ -273,4 +273,47 @@ vpv_cell!(#[kani::stub(eval_filter_expr, stub_eval_filter_expr)] #[kani::stub(co
 vpv_cell!(#[kani::stub(eval_filter_expr, stub_eval_filter_expr)] #[kani::stub(collect_emitted_event, stub_collect_emitted_event)] #[kani::stub(call_user_function, stub_call_user_function)] c09_le_null_null, "C09/Le/Null-Null", (), { agree(3, Expr::Null, Expr::Null) });
 vpv_cell!(#[kani::stub(eval_filter_expr, stub_eval_filter_expr)] #[kani::stub(collect_emitted_event, stub_collect_emitted_event)] #[kani::stub(call_user_function, stub_call_user_function)] c09_gt_null_null, "C09/Gt/Null-Null", (), { agree(4, Expr::Null, Expr::Null) });
 vpv_cell!(#[kani::stub(eval_filter_expr, stub_eval_filter_expr)] #[kani::stub(collect_emitted_event, stub_collect_emitted_event)] #[kani::stub(call_user_function, stub_call_user_function)] c09_ge_null_null, "C09/Ge/Null-Null", (), { agree(5, Expr::Null, Expr::Null) });
-vpv_replay_table!(c09_eq_null_null, c09_noteq_null_null, c09_lt_null_null, c09_le_null_null, c09_gt_null_null, c09_ge_null_null, c09_pred_literal_left_eq, c09_pred_literal_left_noteq, c09_pred_literal_left_lt, c09_pred_literal_left_le, c09_pred_literal_left_gt, c09_pred_literal_left_ge, c09_eq_int_int, c09_eq_int_float, c09_eq_float_int, c09_eq_float_float, c09_eq_str_str, c09_eq_bool_bool, c09_eq_mismatched_kinds, c09_noteq_int_int, c09_noteq_int_float, c09_noteq_float_int, c09_noteq_float_float, c09_noteq_str_str, c09_noteq_bool_bool, c09_noteq_mismatched_kinds, c09_lt_int_int, c09_lt_int_float, c09_lt_float_int, c09_lt_float_float, c09_lt_str_str, c09_lt_bool_bool, c09_lt_mismatched_kinds, c09_le_int_int, c09_le_int_float, c09_le_float_int, c09_le_float_float, c09_le_str_str, c09_le_bool_bool, c09_le_mismatched_kinds, c09_gt_int_int, c09_gt_int_float, c09_gt_float_int, c09_gt_float_float, c09_gt_str_str, c09_gt_bool_bool, c09_gt_mismatched_kinds, c09_ge_int_int, c09_ge_int_float, c09_ge_float_int, c09_ge_float_float, c09_ge_str_str, c09_ge_bool_bool, c09_ge_mismatched_kinds, c09_pred_eq, c09_pred_noteq, c09_pred_lt, c09_pred_le, c09_pred_gt, c09_pred_ge);
+
+// ---- filters over event FIELDS (missing, or of another type than the literal), through the real parser, compiler and engine: BOUNDED STAND-IN
+// (native enumeration).  Field access goes through IndexMap / FxHashMap lookups, which CBMC cannot carry; here the property is checked as stated, on
+// the public engine: the same filter text is placed in `stream W = E.where(F)` and in the sequence step `Start as s -> E where F as e`, one event E is
+// sent, and the two must agree on whether it is accepted.
+#[cfg(vpv_replay)]
+pub fn c09_engine_accepts(rt: &tokio::runtime::Runtime, code: &str, events: Vec<crate::event::Event>) -> Option<bool> {
+    let program = varpulis_parser::parse(code).ok()?;
+    rt.block_on(async {
+        let (tx, mut rx) = tokio::sync::mpsc::channel(1000);
+        let mut engine = crate::engine::Engine::new(tx);
+        engine.load(&program).ok()?;
+        for ev in events { engine.process(ev).await.ok()?; }
+        Some(rx.try_recv().is_ok())
+    })
+}
+vpv_native!(c09_engine_fields, "C09/engine: `.where(F)` and the sequence step `-> E where F` accept the same events, for F over a field that is missing or of another type than the literal (native enumeration: 6 operators x 5 literals x 10 field values, plus not / and / or over a missing field)", {
+    let rt = tokio::runtime::Builder::new_current_thread().enable_all().build().unwrap();
+    let ops = ["==", "!=", "<", "<=", ">", ">="];
+    let lits = ["5", "5.0", "\"a\"", "true", "6.5"];
+    let fields: Vec<(&str, Option<Value>)> = vec![("missing", None), ("Int 5", Some(Value::Int(5))), ("Int 6", Some(Value::Int(6))), ("Float 5.0", Some(Value::Float(5.0))),
+        ("Float 5.5", Some(Value::Float(5.5))), ("Float NaN", Some(Value::Float(f64::NAN))), ("Str a", Some(Value::Str("a".into()))), ("Str b", Some(Value::Str("b".into()))),
+        ("Bool true", Some(Value::Bool(true))), ("Null", Some(Value::Null))];
+    let mut filters: Vec<String> = Vec::new();
+    for op in ops { for lit in lits { filters.push(format!("x {} {}", op, lit)); } }
+    for f in ["not (x > 5)", "not (x == 5)", "x > 5 or y > 1", "x > 5 and y > 1", "not (x > 5) and y > 1", "x > 5 or not (y > 1)"] { filters.push(f.to_string()); }
+    let mut ok = true; let mut shown = 0; let mut n = 0u64;
+    for f in &filters { for (fname, fv) in &fields {
+        let mk = || { let mut e = crate::event::Event::new("E").with_field("y", Value::Int(2)); if let Some(v) = fv { e = e.with_field("x", v.clone()); } e };
+        n += 1;
+        let good = vpv_enum_try(|| format!("filter `{}` on an event E with x = {}, y = 2", f, fname), || {
+            let w = c09_engine_accepts(&rt, &format!("stream W = E\n    .where({})\n    .emit(ok: 1)\n", f), vec![mk()]);
+            let p = c09_engine_accepts(&rt, &format!("stream P = Start as s\n    -> E where {} as e\n    .emit(ok: 1)\n", f), vec![crate::event::Event::new("Start"), mk()]);
+            // a filter the parser / compiler rejects in either position says nothing about the two evaluators: skipped
+            if w.is_none() || p.is_none() { return true; }
+            if w != p { println!("  .where accepts: {:?}   sequence step accepts: {:?}", w, p); }
+            w == p
+        });
+        if !good { ok = false; shown += 1; if shown >= 6 { return false; } }
+    } }
+    println!("  {} (filter, event) pairs", n);
+    ok
+});
+vpv_replay_table!(c09_eq_null_null, c09_noteq_null_null, c09_lt_null_null, c09_le_null_null, c09_gt_null_null, c09_ge_null_null, c09_pred_literal_left_eq, c09_pred_literal_left_noteq, c09_pred_literal_left_lt, c09_pred_literal_left_le, c09_pred_literal_left_gt, c09_pred_literal_left_ge, c09_eq_int_int, c09_eq_int_float, c09_eq_float_int, c09_eq_float_float, c09_eq_str_str, c09_eq_bool_bool, c09_eq_mismatched_kinds, c09_noteq_int_int, c09_noteq_int_float, c09_noteq_float_int, c09_noteq_float_float, c09_noteq_str_str, c09_noteq_bool_bool, c09_noteq_mismatched_kinds, c09_lt_int_int, c09_lt_int_float, c09_lt_float_int, c09_lt_float_float, c09_lt_str_str, c09_lt_bool_bool, c09_lt_mismatched_kinds, c09_le_int_int, c09_le_int_float, c09_le_float_int, c09_le_float_float, c09_le_str_str, c09_le_bool_bool, c09_le_mismatched_kinds, c09_gt_int_int, c09_gt_int_float, c09_gt_float_int, c09_gt_float_float, c09_gt_str_str, c09_gt_bool_bool, c09_gt_mismatched_kinds, c09_ge_int_int, c09_ge_int_float, c09_ge_float_int, c09_ge_float_float, c09_ge_str_str, c09_ge_bool_bool, c09_ge_mismatched_kinds, c09_pred_eq, c09_pred_noteq, c09_pred_lt, c09_pred_le, c09_pred_gt, c09_pred_ge, c09_engine_fields);
